@@ -361,6 +361,18 @@ Definition ta_eqb (x y : table * aliases) : bool := table_eqb (fst x) (fst y) &&
 Definition chip_tables_eqb (a b : list (chip * table)) : bool :=
   Nat.eqb (length a) (length b)
   && forallb (fun p => chip_eqb (fst (fst p)) (fst (snd p)) && table_eqb (snd (fst p)) (snd (snd p))) (combine a b).
+Definition show_table (t : table) := map (fun e => (e_route e, e_key e, e_mask e, e_sources e)) t.
+Definition show_res {A B} (f : A -> B) (r : result A) : result B :=
+  match r with Ok a => Ok (f a) | Failed k => Failed k | OtherError => OtherError | OutOfFuel => OutOfFuel end.
+Definition show_ta (x : table * aliases) := (show_table (fst x), snd x).
+Inductive shown_outcome := SOk (ts : list (chip * list (Z * Z * Z * Z))) | SFailed (c : chip) (n : Z) | SOther | SFuel.
+Definition show_outcome (x : tables_outcome) : shown_outcome :=
+  match x with
+  | TablesOk a => SOk (map (fun p => (fst p, show_table (snd p))) a)
+  | TablesFailed c f => SFailed c f
+  | TablesOther => SOther
+  | TablesOutOfFuel => SFuel
+  end.
 Definition outcome_eqb (x y : tables_outcome) : bool :=
   match x, y with
   | TablesOk a, TablesOk b => chip_tables_eqb a b
@@ -493,10 +505,12 @@ def run(chk, args):
     if chk.model_ok:
         try:
             items = []
+            eqbs = {}
             for ci, (c, o) in enumerate(zip(cases, outs)):
                 if o[0] == "hang":
                     continue
                 for label, call, lit, eqb, val in model_exprs(c, o):
+                    eqbs[(ci, label)] = eqb
                     items.append((ci, label, call, "(%s (%s) %s, %s)" % (eqb, call, lit, val or "true")))
             vals = chk.coq_eval(HEADER, [it[3] for it in items], shard=60 if chk.tier == "quick" else 300,
                                 timeout=3000)
@@ -505,14 +519,16 @@ def run(chk, args):
             for (ci, label, call, _), v in zip(items, vals):
                 chk.traces_validated += 1
                 if v[0] is not True and bad_corr is None:
-                    bad_corr = (ci, label, call)
+                    bad_corr = (ci, label, call, eqbs[(ci, label)])
                 if v[1] is not True and bad_val is None:
                     bad_val = (ci, label)
                 nval += 1
             if bad_corr:
-                ci, label, call = bad_corr
+                ci, label, call = bad_corr[:3]
+                show = {"(res_eqb table_eqb)": "show_res show_table", "(res_eqb ta_eqb)": "show_res show_ta",
+                        "outcome_eqb": "show_outcome"}
                 try:
-                    mv = chk.coq_eval(HEADER, [call], name="diag")[0]
+                    mv = chk.coq_eval(HEADER, ["%s (%s)" % (show[bad_corr[3]], call)], name="diag")[0]
                 except Exception as e:                      # noqa
                     mv = "model evaluation failed: %s" % e
                 chk.disagree("%s: model and implementation differ; model gives %r" % (label, mv),
